@@ -85,6 +85,10 @@ def replay(item):
         r2 = run_async(vt.execute(content=r["canonical"], schema=name, fix=fix))
         log2 = [x for x in r2.get("repairs", []) if isinstance(x, dict) and x.get("tier") is not None]
         entry("octave_validate", fix, r["canonical"], log, r2["canonical"], log2)
+    # the same long-lived tool, fix off again after fix on was served for the very same text: still nothing may change
+    r = run_async(vt.execute(content=text, schema=name, fix=False))
+    log = [x for x in r.get("repairs", []) if isinstance(x, dict) and x.get("tier") is not None]
+    entry("octave_validate_off_after_on", False, r["canonical"], log)
     wt = WriteTool()
     p = os.path.join(d, "r%d.oct.md" % os.getpid())
     if os.path.exists(p):
